@@ -87,7 +87,15 @@ def patterns(fam):
             (('diag', c, (L('D'), L('W'))), ('diag', c, (L('A'), L('D', 1)))),
             (('row', c, (L('A'), L('D'))), ('col', c, (L('B'), L('D', 1)))),
             (('row', c, (L('A'), L('D'))), ('diag', c, (L('D', 1), L('k'))), ('col', c, (L('B'), L('A', 1)))),
-        )]
+        )] + [
+            # adjacent block operators whose structures match but whose CONTAINERS are laid out differently (a block that is itself
+            # a block operator over a pytree against a nested container): the block-wise rules cannot pair the blocks
+            (('row', 'list', (('row', 'list', (L('A'), L('D'))), L('B'))), ('diag', 'lnest', (L('A', 1), L('D', 1), L('B', 1)))),
+            (('diag', 'lnest', (L('A'), L('D'), L('B'))), ('col', 'list', (('col', 'list', (L('A', 1), L('D', 1))), L('B', 1)))),
+            (('diag', 'list', (('diag', 'list', (L('A'), L('D'))), L('B'))), ('diag', 'lnest', (L('A', 1), L('D', 1), L('B', 1)))),
+            (('diag', 'lnest', (L('A'), L('D'), L('B'))), ('diag', 'list', (('diag', 'list', (L('A', 1), L('D', 1))), L('B', 1)))),
+            (('row', 'list', (('row', 'list', (L('A'), L('D'))), L('B'))), ('col', 'lnest', (L('A', 1), L('D', 1), L('B', 1)))),
+        ]
     if fam == 'mat':
         return [
             (L('I'),), (L('k'), L('I'), L('D0')),
